@@ -14,7 +14,9 @@ Guards must compare the very operands passed on; unsigned subtraction is a sourc
 unless dominated by `a >= b`; `Session::fetching` is guarded by `is_connected()`.
 sqlite's panicking column accessor `Row::read::<T>` is a panic source: allowed only where
 the column's parser accepts everything this node's writer can have stored (primitive,
-total parser, keyword set agreeing with the writer, or a reviewed inverse encoding)."""
+total parser, keyword set agreeing with the writer, or a reviewed inverse encoding whose
+parser functions construct no rejection of their own; UserAgent: every segment ASCII graphic).
+`LocalTime - LocalDuration` is a panic source unless the time is the local clock."""
 import re
 
 from .. import dbread, cfg, rules, flow, panic
